@@ -40,7 +40,7 @@ type Draw struct {
 	Int   int64  `json:"int,omitempty"`
 	Bytes []byte `json:"bytes,omitempty"`
 
-	terms []*smt.Term
+	terms  []*smt.Term
 	signed bool
 }
 
@@ -193,7 +193,7 @@ type explorer struct {
 	tagCount  map[string]int
 	obs       []obsRec
 
-	local *localMode
+	local     *localMode
 	bind      map[*smt.Term]*smt.Term
 	substMemo map[*smt.Term]*smt.Term
 
